@@ -294,6 +294,11 @@ func (f *File) enterWriteMode() error {
 			if err := f.writeBuf.Truncate(0); err != nil {
 				return err
 			}
+
+			// Restoring the existing content moved the cursor; the truncated file starts at 0 again
+			if _, err := f.writeBuf.Seek(0, io.SeekStart); err != nil {
+				return err
+			}
 		}
 
 		if !f.flags.Append {
